@@ -344,7 +344,7 @@ def run(case):
                 a = (int(ra1[i]), int(d1[i]), int(ra2[i]), int(d2[i]))
                 gs, bs = at.gcd(*a), at.bear(*a)
                 ts = at.translate(int(ra1[i]), int(d1[i]), int(r[i]), int(t[i]))
-                ns = at.gcd(np.int64(a[0]), np.int32(a[1]), np.int64(a[2]), np.int16(a[3]))
+                ns = at.gcd(np.int64(a[0]), np.int32(a[1]), np.int64(a[2]), np.int32(a[3]))   # (int16/int8 would make numpy itself work in float32/float16)
                 o.count('int_spellings_checked', 3)
                 if not (abs(gs - gf[i]) <= 1e-12 and abs(ns - gf[i]) <= 1e-12 and (abs(sphere.angdiff(bs, bf[i])) <= 1e-9 or not np.isfinite(bf[i]))
                         and abs(sphere.angdiff(ts[0], tf[0][i])) <= 1e-9 and abs(ts[1] - tf[1][i]) <= 1e-12):
